@@ -665,8 +665,19 @@ func unquote(s string) (string, error) {
 // all of whose call sites lie inside the set (so the helper is a piece of fn that was given a name).
 // Anonymous functions defined inside members belong too.
 func (m *Model) helpersOf(fn *ssa.Function) []*ssa.Function {
-	set := map[*ssa.Function]bool{fn: true}
-	order := []*ssa.Function{fn}
+	return m.helpersOfSet([]*ssa.Function{fn})
+}
+
+// helpersOfSet: like helpersOf for several roots (a helper shared by the roots only is private to the set).
+func (m *Model) helpersOfSet(roots []*ssa.Function) []*ssa.Function {
+	set := map[*ssa.Function]bool{}
+	var order []*ssa.Function
+	for _, fn := range roots {
+		if !set[fn] {
+			set[fn] = true
+			order = append(order, fn)
+		}
+	}
 	for changed := true; changed; {
 		changed = false
 		for _, f := range append([]*ssa.Function{}, order...) {
@@ -737,4 +748,60 @@ func (m *Model) resolveUp(v ssa.Value, anchor *ssa.Function, depth int) []ssa.Va
 		return []ssa.Value{v}
 	}
 	return out
+}
+
+// walkInlined visits the instructions of fn and, context-sensitively, of the module functions it calls
+// statically (depth-bounded, each callee once per call site): resolve maps a callee's parameter to the value
+// it stands for in fn at this call chain. Rules written against it see the same thing whether a piece of fn's
+// body is inline or was moved into a (possibly shared) helper.
+func (m *Model) walkInlined(fn *ssa.Function, maxDepth int, visit func(in ssa.Instruction, resolve func(ssa.Value) ssa.Value, depth int)) {
+	var walk func(f *ssa.Function, bind map[*ssa.Parameter]ssa.Value, depth int, stack map[*ssa.Function]bool)
+	walk = func(f *ssa.Function, bind map[*ssa.Parameter]ssa.Value, depth int, stack map[*ssa.Function]bool) {
+		resolve := func(v ssa.Value) ssa.Value {
+			for i := 0; i < 4; i++ {
+				switch x := v.(type) {
+				case *ssa.Parameter:
+					if b, ok := bind[x]; ok {
+						return b
+					}
+					return v
+				case *ssa.MakeInterface:
+					if p, isP := x.X.(*ssa.Parameter); isP {
+						if b, ok := bind[p]; ok {
+							return b
+						}
+					}
+					return v
+				case *ssa.ChangeType:
+					v = x.X
+					continue
+				}
+				break
+			}
+			return v
+		}
+		for _, b := range f.Blocks {
+			for _, in := range b.Instrs {
+				visit(in, resolve, depth)
+				c, ok := in.(ssa.CallInstruction)
+				if !ok || depth >= maxDepth {
+					continue
+				}
+				sc := c.Common().StaticCallee()
+				if sc == nil || sc.Blocks == nil || !m.InModule(sc) || stack[sc] || fnPkgPath(sc) != fnPkgPath(fn) {
+					continue
+				}
+				nb := map[*ssa.Parameter]ssa.Value{}
+				for i, a := range c.Common().Args {
+					if i < len(sc.Params) {
+						nb[sc.Params[i]] = resolve(a)
+					}
+				}
+				stack[sc] = true
+				walk(sc, nb, depth+1, stack)
+				delete(stack, sc)
+			}
+		}
+	}
+	walk(fn, map[*ssa.Parameter]ssa.Value{}, 0, map[*ssa.Function]bool{fn: true})
 }
